@@ -78,6 +78,13 @@ def main():
     if d:
         time.sleep((h(spec.get('delay_seed', 0), *toks) % (d + 1)) / 1000.0)
     beh = spec['accept'] if v else spec['reject']
+    near = spec.get('near')
+    if not v and err is None and near and holds(near['pred'], toks):
+        # a third behaviour, close to the accepting one (e.g. another text on
+        # one stream); whether it matches the golden run depends on ddSMT's
+        # comparison options, which the harness evaluated into 'acceptable'
+        beh = near['beh']
+        v = bool(near['acceptable'])
     if spec.get('log'):
         rec = {'pid': os.getpid(), 'argv': sys.argv[1:],
                'ext': os.path.splitext(path)[1], 'toks': toks, 'verdict': v,
